@@ -144,13 +144,16 @@ def run_seed(world_name: str) -> WorldFn:
 
 
 def run_chunk(
-    world_name: str, lens: str, cfg: dict[str, Any], base_seed: int, start: int, count: int, want_digests: bool = False
+    world_name: str, lens: str, cfg: dict[str, Any], base_seed: int, start: int, count: int, want_digests: bool = False,
+    deadline: float | None = None,
 ) -> ChunkResult:
     faulthandler.enable()
     world = run_seed(world_name)
     out = ChunkResult()
     t0 = time.time()
     for idx in range(start, start + count):
+        if deadline is not None and out.runs and time.time() > deadline:
+            break  # the batch's budget is spent: the rest of this chunk is simply not run
         seed = derive_seed(base_seed, world_name, idx)
         ch = Choices(seed=seed)
         r = execute(world, ch, lens, dict(cfg, run_index=idx))
@@ -405,7 +408,7 @@ def run_check(
             if best is None:
                 return False
             key = best.label or best.world
-            fut = ex.submit(run_chunk, best.world, prop, best.cfg, base_seed, next_idx[key], best.chunk)
+            fut = ex.submit(run_chunk, best.world, prop, best.cfg, base_seed, next_idx[key], best.chunk, False, t_end)
             next_idx[key] += best.chunk
             pending[fut] = best
             return True
